@@ -269,6 +269,42 @@ def exec (T : Table) (H : Hier) (s : Site) (σ : Store) : Op → Res × Store
     | .denied => (.denied, σ)
     | .stuck => (.stuck, σ)
 
+/-! ### sequences of accesses within one VM
+
+The access nodes keep no memory between two evaluations: no field of a node, of a class statement or of the VM
+is written by a modifier test, and a test reads only the context class, the receiver's class and the member's
+modifier. So a sequence of accesses is the fold of `exec` over one store. The harness's history stream runs
+such sequences on the interpreter (same site twice, another site, after a caught denial, after a legitimate
+access, interleaved with other classes) and holds every outcome against `verdict`. -/
+
+structure Step where
+  site : Site
+  op : Op
+deriving Repr
+
+/-- accesses run one after the other on the same store -/
+def run (T : Table) (H : Hier) : Store → List Step → List Res × Store
+  | σ, [] => ([], σ)
+  | σ, st :: rest =>
+    let r := exec T H st.site σ st.op
+    let rr := run T H r.2 rest
+    (r.1 :: rr.1, rr.2)
+
+def Res.out : Res → Out
+  | .ok _ => .allowed
+  | .denied => .denied
+  | .stuck => .stuck
+
+/-- the verdict on one access: a function of the site and of the operation, not of the store or the history -/
+def verdict (T : Table) (H : Hier) (st : Step) : Out :=
+  match st.op with
+  | .write _ _ false => .denied
+  | _ => decide T H st.site
+
+/-- the store after a sequence, stated without running it: the effects of the allowed steps, in order -/
+def effects (T : Table) (H : Hier) (σ : Store) (steps : List Step) : Store :=
+  (steps.filter (fun st => verdict T H st == .allowed)).foldl (fun σ st => σ.after st.op) σ
+
 /-! ### `Class.Is` on an object, restricted to what C07's fixtures use (classes, extends, direct implements;
 interface inheritance and the BFS are C08's) -/
 
